@@ -146,9 +146,12 @@ func registerHost(in *Interp) {
 			}
 			ss = append(ss, x)
 		}
+		orig := append([]string(nil), ss...)
 		sort.Strings(ss)
 		for i, x := range ss {
-			in.store(s.Arr.Kids[s.Off+i], x)
+			if orig[i] != x { // a sorted slice is not written to
+				in.store(s.Arr.Kids[s.Off+i], x)
+			}
 		}
 		return nil
 	}
